@@ -104,9 +104,9 @@ Theorem unsupported_operation_rejected o t :
   op_supported (ekind_of (engine_of t)) o = false → finish_default o t = Err EngineError.
 Proof. intros H. unfold finish_default. rewrite H. reflexivity. Qed.
 
-Theorem unsupported_join_predicate_rejected p c l r :
+Theorem unsupported_join_predicate_rejected cf p c l r :
   is_join_identity l = false → is_join_identity r = false → engine_of l = engine_of r →
-  supp_p (ekind_of (engine_of l)) p = false → join_finish p c l r = Err EngineError.
+  supp_p (ekind_of (engine_of l)) p = false → join_finish cf p c l r = Err EngineError.
 Proof.
   intros H1 H2 He Hs. unfold join_finish. rewrite H1, H2. unfold engine_eqb.
   rewrite bool_decide_eq_true_2 by auto. simpl. rewrite Hs. reflexivity.
